@@ -21,9 +21,9 @@ CHECKS["C01"] = dict(
     assumptions=["subscriber ids colliding under 32-bit murmur and contract ids equal to wildcard hash constants are outside the sampled domain",
                  "concurrent leg: interleavings are whatever the Go scheduler yields (sampled, not enumerated)"],
     legs=[
-        dict(name="trie-emitter", test="^TestTrieEmitter$", quick=dict(n=3000, procs=2, timeout=240), thorough=dict(n=1500000, procs=6, timeout=3000)),
-        dict(name="trie-mqtt", test="^TestTrieMQTT$", quick=dict(n=3000, procs=2, timeout=240), thorough=dict(n=1500000, procs=6, timeout=3000)),
-        dict(name="counters", test="^TestCounters$", quick=dict(n=5000, procs=1, timeout=240), thorough=dict(n=3000000, procs=4, timeout=3000)),
+        dict(name="trie-emitter", test="^TestTrieEmitter$", quick=dict(n=8000, procs=2, timeout=240), thorough=dict(n=1500000, procs=6, timeout=3000)),
+        dict(name="trie-mqtt", test="^TestTrieMQTT$", quick=dict(n=8000, procs=2, timeout=240), thorough=dict(n=1500000, procs=6, timeout=3000)),
+        dict(name="counters", test="^TestCounters$", quick=dict(n=15000, procs=1, timeout=240), thorough=dict(n=3000000, procs=4, timeout=3000)),
         dict(name="concurrent", test="^(TestConcurrent|TestShareBothMembers)$", kind="plain", quick=dict(n=20, procs=1, timeout=240), thorough=dict(n=800, procs=2, timeout=1500)),
     ],
 )
@@ -41,7 +41,7 @@ CHECKS["C02"] = dict(
     rule="rapid-generated histories; non-trivial = history in which a publish is delivered to a connection holding >=2 filters after >=1 effective "
          "unsubscribe/disconnect; distinct = distinct case value.",
     assumptions=["a barrier not answered within 30 s is reported as a hang (violation)"],
-    legs=[dict(name="sessions", test="^TestSessions$", quick=dict(n=400, procs=4, timeout=300), thorough=dict(n=40000, procs=14, timeout=2400))],
+    legs=[dict(name="sessions", test="^TestSessions$", quick=dict(n=800, procs=4, timeout=300), thorough=dict(n=40000, procs=14, timeout=2400))],
 )
 
 CHECKS["C16"] = dict(
@@ -55,7 +55,7 @@ CHECKS["C16"] = dict(
                "packets, topic filters >=1 char), the neutral description and field maps in the harness.",
     rule="rapid-generated packet descriptions; non-trivial = remaining length needs >=2 bytes or any non-default flag/QoS/return code; distinct = distinct description.",
     assumptions=["packets whose total size exceeds the 64 KiB encoder buffer are out of scope (counted as excluded)"],
-    legs=[dict(name="differential", test="^TestCodecDifferential$", quick=dict(n=20000, procs=4, timeout=300), thorough=dict(n=5000000, procs=12, timeout=3000)),
+    legs=[dict(name="differential", test="^TestCodecDifferential$", quick=dict(n=50000, procs=4, timeout=300), thorough=dict(n=5000000, procs=12, timeout=3000)),
           dict(name="fuzz-seeds", test="^FuzzDecode$", kind="plain", quick=dict(n=1, procs=1, timeout=120), thorough=dict(n=1, procs=1, timeout=120)),
           dict(name="fuzz-decode", kind="fuzz", fuzz="FuzzDecode", thorough=dict(fuzztime=240, workers=8))],
 )
@@ -79,7 +79,7 @@ CHECKS["C20"] = dict(
         dict(name="collisions", test="^TestNoCollisions$", kind="plain", quick=dict(n=20000, procs=1, timeout=300), thorough=dict(n=300000, procs=2, timeout=1800)),
         dict(name="concurrent", test="^TestConcurrentCipher$", kind="plain", quick=dict(n=20000, procs=1, timeout=300), thorough=dict(n=400000, procs=1, timeout=1800)),
         dict(name="reject", test="^TestDecryptRejects$", quick=dict(n=20000, procs=2, timeout=300), thorough=dict(n=5000000, procs=6, timeout=3000)),
-        dict(name="parse", test="^TestParseArbitrary$", quick=dict(n=20000, procs=2, timeout=300), thorough=dict(n=5000000, procs=6, timeout=3000)),
+        dict(name="parse", test="^TestParseArbitrary$", quick=dict(n=40000, procs=2, timeout=300), thorough=dict(n=5000000, procs=6, timeout=3000)),
         dict(name="parse-hostile", test="^(TestProbeParseOOM|TestParseHostile)$", quick=dict(n=3000, procs=2, timeout=300), thorough=dict(n=200000, procs=4, timeout=1800)),
     ],
 )
@@ -96,7 +96,7 @@ CHECKS["C04"] = dict(
     rule="rapid-generated histories (<=50 steps, 7 events of 3 types, clocks 1..8); non-trivial = >=3 replicas touched, >=1 tie or backwards clock and >=1 "
          "re-deliverable (encoded) payload shipped; distinct = distinct case value.",
     assumptions=["tombstone expiry (6 h TTL in the durable store) is outside the explored time span"],
-    legs=[dict(name="convergence", test="^TestConvergence$", quick=dict(n=2500, procs=4, timeout=300), thorough=dict(n=250000, procs=14, timeout=2400))],
+    legs=[dict(name="convergence", test="^TestConvergence$", quick=dict(n=4000, procs=4, timeout=300), thorough=dict(n=250000, procs=14, timeout=2400))],
 )
 
 CHECKS["C13"] = dict(
@@ -112,8 +112,8 @@ CHECKS["C13"] = dict(
                "is known to violate the property whenever payloads coalesce (listed finding), so (b) separates 'fails as listed' from 'fails otherwise' only.",
     rule="(a) non-trivial = history containing a merge whose payload entry has one changed and one unchanged time field; (b) non-trivial = >=2 payloads queued. "
          "distinct = distinct case value.",
-    legs=[dict(name="delta", test="^TestDeltaExact$", quick=dict(n=2500, procs=4, timeout=300), thorough=dict(n=250000, procs=12, timeout=2400)),
-          dict(name="sender", test="^(TestProbeCoalescedLost|TestSenderQueue)$", quick=dict(n=4000, procs=2, timeout=300), thorough=dict(n=300000, procs=4, timeout=2400))],
+    legs=[dict(name="delta", test="^TestDeltaExact$", quick=dict(n=4000, procs=4, timeout=300), thorough=dict(n=250000, procs=12, timeout=2400)),
+          dict(name="sender", test="^(TestProbeCoalescedLost|TestSenderQueue)$", quick=dict(n=8000, procs=2, timeout=300), thorough=dict(n=300000, procs=4, timeout=2400))],
 )
 
 CHECKS["C17"] = dict(
@@ -148,9 +148,9 @@ CHECKS["C06"] = dict(
                "Negative limits are out of the property's domain (C09 covers them).",
     rule="rapid-generated (store, queries) cases; non-trivial = some query has a non-empty candidate set that is a strict subset of the store and (a colliding foreign "
          "contract message, an expired message, or a continuation) is involved; distinct = distinct case value.",
-    legs=[dict(name="inmemory", test="^TestQueryInMemory$", quick=dict(n=4000, procs=4, timeout=300), thorough=dict(n=600000, procs=10, timeout=3000)),
+    legs=[dict(name="inmemory", test="^TestQueryInMemory$", quick=dict(n=8000, procs=4, timeout=300), thorough=dict(n=600000, procs=10, timeout=3000)),
           dict(name="big-store", test="^TestBigStore$", kind="plain", quick=dict(n=1, procs=1, timeout=300), thorough=dict(n=1, procs=1, timeout=300)),
-          dict(name="disk", test="^TestQueryDisk$", quick=dict(n=1000, procs=2, timeout=300), thorough=dict(n=30000, procs=6, timeout=2400))],
+          dict(name="disk", test="^TestQueryDisk$", quick=dict(n=2000, procs=2, timeout=300), thorough=dict(n=30000, procs=6, timeout=2400))],
 )
 
 CHECKS["C03"] = dict(
@@ -169,8 +169,8 @@ CHECKS["C03"] = dict(
     rule="matrix cells + generated tuples + masks; non-trivial = matrix cell that is allowed or refused by exactly one level / one depth step; tuple where exactly "
          "one conjunct fails or all hold; distinct = distinct case value.",
     legs=[dict(name="matrix", test="^TestCoversMatrix$", kind="plain", quick=dict(n=1, procs=1, timeout=300), thorough=dict(n=1, procs=1, timeout=1200)),
-          dict(name="deep", test="^TestCoversDeep$", quick=dict(n=20000, procs=2, timeout=300), thorough=dict(n=5000000, procs=6, timeout=3000)),
-          dict(name="authorize", test="^TestAuthorize$", quick=dict(n=6000, procs=3, timeout=300), thorough=dict(n=4000000, procs=12, timeout=3000)),
+          dict(name="deep", test="^TestCoversDeep$", quick=dict(n=40000, procs=2, timeout=300), thorough=dict(n=5000000, procs=6, timeout=3000)),
+          dict(name="authorize", test="^TestAuthorize$", quick=dict(n=15000, procs=3, timeout=300), thorough=dict(n=4000000, procs=12, timeout=3000)),
           dict(name="entry-points", test="^TestEntryPoints$", kind="plain", quick=dict(n=1, procs=1, timeout=300), thorough=dict(n=1, procs=1, timeout=600))],
 )
 
@@ -189,7 +189,7 @@ CHECKS["C11"] = dict(
                "format's epoch (2010-01-01) is not representable: such a key must already be expired with the earliest representable expiry.",
     rule="rapid-generated requests; non-trivial = a key was issued from a master, or the request asks for permissions the parent lacks, or a refusal caused by a "
          "parent defect with a well-formed channel; distinct = distinct case value.",
-    legs=[dict(name="keygen", test="^(TestProbeTTLUnderflow|TestKeygen)$", quick=dict(n=6000, procs=3, timeout=300), thorough=dict(n=4000000, procs=12, timeout=3000)),
+    legs=[dict(name="keygen", test="^(TestProbeTTLUnderflow|TestKeygen)$", quick=dict(n=15000, procs=3, timeout=300), thorough=dict(n=4000000, procs=12, timeout=3000)),
           dict(name="extendable", test="^TestExtendableUnusable$", kind="plain", quick=dict(n=1, procs=1, timeout=300), thorough=dict(n=1, procs=1, timeout=300))],
 )
 
@@ -204,7 +204,7 @@ CHECKS["C12"] = dict(
     level_note="Trusted: keys built field by field, the probe set. A 2^-32 forgery cannot be found by sampling; this check finds structural malleability only. "
                "Listed findings: v2/v3 ciphers are unauthenticated stream ciphers (bit flips beyond the salt bytes change permissions/target/expiry at will).",
     rule="rapid-generated (key, modification) pairs + enumerated single-bit flips; non-trivial = the modified string is still 32 valid characters; distinct = distinct case value.",
-    legs=[dict(name="tamper", test="^TestTamper$", quick=dict(n=6000, procs=3, timeout=300), thorough=dict(n=4000000, procs=12, timeout=3000)),
+    legs=[dict(name="tamper", test="^TestTamper$", quick=dict(n=15000, procs=3, timeout=300), thorough=dict(n=4000000, procs=12, timeout=3000)),
           dict(name="issued-splice", test="^TestSpliceIssuedKeys$", kind="plain", quick=dict(n=200, procs=1, timeout=300), thorough=dict(n=5000, procs=2, timeout=900)),
           dict(name="bitflips", test="^TestSingleBitFlips$", kind="plain", quick=dict(n=1, procs=1, timeout=300), thorough=dict(n=1, procs=1, timeout=300))],
 )
@@ -223,10 +223,10 @@ CHECKS["C19"] = dict(
                "messages at or above the split bound cannot occur in the broker (64 KiB packet cap vs 10 MiB bound) and are excluded (counted).",
     rule="rapid cases + stress rounds; non-trivial = frame of >=2 messages or a large payload/ttl, >=2 time steps, a frame that splits into >=2 chunks, a peer round with "
          ">=2 concurrent senders; distinct = distinct case value.",
-    legs=[dict(name="codec", test="^TestCodec$", quick=dict(n=3000, procs=2, timeout=300), thorough=dict(n=1500000, procs=8, timeout=3000)),
-          dict(name="ids", test="^TestIDs$", quick=dict(n=5000, procs=1, timeout=300), thorough=dict(n=3000000, procs=4, timeout=3000)),
+    legs=[dict(name="codec", test="^TestCodec$", quick=dict(n=6000, procs=2, timeout=300), thorough=dict(n=1500000, procs=8, timeout=3000)),
+          dict(name="ids", test="^TestIDs$", quick=dict(n=10000, procs=1, timeout=300), thorough=dict(n=3000000, procs=4, timeout=3000)),
           dict(name="ids-concurrent", test="^TestIDsDistinctConcurrent$", kind="plain", quick=dict(n=3, procs=1, timeout=300), thorough=dict(n=60, procs=2, timeout=1200)),
-          dict(name="split", test="^TestSplit$", quick=dict(n=10000, procs=1, timeout=300), thorough=dict(n=4000000, procs=4, timeout=3000)),
+          dict(name="split", test="^TestSplit$", quick=dict(n=20000, procs=1, timeout=300), thorough=dict(n=4000000, procs=4, timeout=3000)),
           dict(name="peer", test="^TestPeerForwarding$", kind="plain", quick=dict(n=12, procs=2, timeout=300), thorough=dict(n=600, procs=6, timeout=2400))],
 )
 
@@ -243,7 +243,7 @@ CHECKS["C07"] = dict(
     level_note="Trusted: paho client codec, barriers, reference matcher, a per-case namespace level so one broker/store serves many cases. Messages of one history "
                "share a wall-clock second, so replay is compared as a multiset. Excluded: will topics with a ttl option and ttl >= 2^32-1 (statement ambiguous / wire type).",
     rule="rapid-generated histories; non-trivial = a subscribe whose expected replay is non-empty and a strict subset of the stored messages; distinct = distinct case value.",
-    legs=[dict(name="retain-replay", test="^TestRetainReplay$", quick=dict(n=400, procs=4, timeout=300), thorough=dict(n=40000, procs=14, batch=2000, timeout=2400)),
+    legs=[dict(name="retain-replay", test="^TestRetainReplay$", quick=dict(n=700, procs=4, timeout=300), thorough=dict(n=40000, procs=14, batch=2000, timeout=2400)),
           dict(name="large-replay", test="^TestLargeReplay$", kind="plain", quick=dict(n=1, procs=1, timeout=300), thorough=dict(n=1, procs=1, timeout=300))],
 )
 
@@ -296,7 +296,7 @@ CHECKS["C14"] = dict(
                "wall clock as the LWW clock (operations are far more than a nanosecond apart). Restart = clean Close + NewService in the main leg; the 'kill' leg runs the broker in a child process and SIGKILLs it after an "
                "acknowledgement (process death only, no power-loss model).",
     rule="rapid-generated histories; non-trivial = a use of a key that has been toggled at least twice, or a restart after a toggle; distinct = distinct case value.",
-    legs=[dict(name="ban", test="^TestBan$", quick=dict(n=120, procs=4, batch=30, timeout=400), thorough=dict(n=12000, procs=14, batch=60, timeout=1200)),
+    legs=[dict(name="ban", test="^TestBan$", quick=dict(n=200, procs=4, batch=30, timeout=400), thorough=dict(n=12000, procs=14, batch=60, timeout=1200)),
           dict(name="kill", test="^TestBanSurvivesKill$", quick=dict(n=12, procs=4, timeout=400), thorough=dict(n=600, procs=10, timeout=2400))],
 )
 
